@@ -35,6 +35,7 @@ def context(ns):
     ctx["UsageJourney"] = c["UsageJourney"]("uj", uj_steps=[ctx["UsageJourneyStep"]])
     ctx["Device"] = c["Device"].from_defaults("dev")
     ctx["Network"] = c["Network"].from_defaults("net")
+    ctx["Network2"] = c["Network"].from_defaults("net2")
     ctx["Country"] = c["Country"].from_defaults("country", short_name="CTR")
     ctx["UsagePattern"] = c["UsagePattern"]("up", ctx["UsageJourney"], [ctx["Device"]], ctx["Network"], ctx["Country"],
                                             efx.hourly(ns, [1, 2, 3, 4], "2025-01-01T00:00:00"))
@@ -106,8 +107,11 @@ def invalid_values(ns, cls, param, default, rng):
 
 
 def state_of(ns, objs):
+    """values, forward links and reverse look-ups of every object"""
     return {n: {a: efx.project_value(ns, v) for a, v in efx.explainable_attrs(ns, o).items() if a not in efx.BOOKKEEPING}
-            for n, o in objs.items()}, {n: efx.topology(ns, {n: o})[n] for n, o in objs.items()}
+            for n, o in objs.items()}, \
+           {n: dict(efx.topology(ns, {n: o})[n], used_by=sorted(x.name for x in o.modeling_obj_containers))
+            for n, o in objs.items()}
 
 
 def changed(ns, before, objs):
@@ -173,10 +177,11 @@ def run(tier, out):
                     if cname == "System":
                         continue
                     import zlib
-                    pick = zlib.crc32(f"{cname}.{p}.{what}".encode()) % 3
-                    for k, where in enumerate(("assignment", "grouped-after-valid-change", "grouped-after-no-op-change")):
-                        if tier == "quick" and k > 0 and (pick + k) % 3 != 0:
-                            continue        # quick tier: each case is tried in one of the two grouped forms or none
+                    pick = zlib.crc32(f"{cname}.{p}.{what}".encode()) % 3 + 1
+                    for k, where in enumerate(("assignment", "grouped-after-valid-change", "grouped-after-no-op-change",
+                                               "grouped-after-relink")):
+                        if tier == "quick" and k > 0 and k != pick:
+                            continue        # quick tier: each case is tried in one of the three grouped forms
                         ctx = context(ns)
                         if what == "conditional-value-not-allowed":
                             target = ctx.get(cname)
@@ -201,8 +206,14 @@ def run(tier, out):
                             else:
                                 old = getattr(target, p)
                                 other = ctx["Network"].bandwidth_energy_intensity
-                                first = [other, ns.SourceValue(other.value * 2)] if where.endswith("valid-change") \
-                                    else [other, ns.SourceValue(other.value)]
+                                if where.endswith("valid-change"):
+                                    first = [other, ns.SourceValue(other.value * 2)]
+                                elif where.endswith("no-op-change"):
+                                    first = [other, ns.SourceValue(other.value)]
+                                elif cname == "UsagePattern" and p == "network":
+                                    first = [ctx["Job"].server, ctx["GPUServer"]]
+                                else:       # a link is re-pointed by a change that precedes the invalid one
+                                    first = [ctx["UsagePattern"].network, ctx["Network2"]]
                                 ns.ModelingUpdate([first, [old, bad]])
                         except Exception as ex:   # noqa
                             exc = type(ex).__name__
